@@ -44,6 +44,7 @@ pub fn gen_lookup_instance(r: &mut Rng, log_n: usize) -> Instance {
     let tvals: Vec<u64> = rows.iter().map(|x| x[table]).collect();
     let mut looking: Vec<ColSpec> = Vec::new();
     let mut filters: Vec<Option<usize>> = Vec::new();
+    let mut filters_next: Vec<bool> = Vec::new();
     let mut used = 0usize;
     let mut constraints = Vec::new();
     for li in 0..n_looking {
@@ -66,7 +67,9 @@ pub fn gen_lookup_instance(r: &mut Rng, log_n: usize) -> Instance {
         } else {
             None
         };
-        let on = |rows: &Vec<Vec<u64>>, i: usize| filt.map_or(true, |f| rows[i][f] == 1);
+        // every fourth filter selects by the filter column's next-row value
+        let fnext = filt.is_some() && r.chance(1, 4);
+        let on = |rows: &Vec<Vec<u64>>, i: usize| filt.map_or(true, |f| rows[if fnext { (i + 1) % n } else { i }][f] == 1);
         match kind {
             0 | 1 => {
                 // single column (or scaled + constant): a*col + k
@@ -96,6 +99,7 @@ pub fn gen_lookup_instance(r: &mut Rng, log_n: usize) -> Instance {
             }
         }
         filters.push(filt);
+        filters_next.push(fnext);
     }
     // spare columns are free
     for c in used..cols - 2 {
@@ -103,7 +107,7 @@ pub fn gen_lookup_instance(r: &mut Rng, log_n: usize) -> Instance {
             rows[i][c] = r.felt_biased();
         }
     }
-    let spec = LookupSpec { looking, filters, table, freq };
+    let spec = LookupSpec { looking, filters, filters_next, table, freq };
     let mut def = Def { cols, pis, constraints, degree: r.range(2, 3), lookups: vec![spec], ctl: false };
     // frequencies: count on the first occurrence of each table value
     fill_frequencies(&mut def, &mut rows);
@@ -118,7 +122,7 @@ fn fill_frequencies(def: &mut Def, rows: &mut Vec<Vec<u64>>) {
         let mut want: BTreeMap<u64, u64> = BTreeMap::new();
         for r in 0..n {
             for (k, cs) in l.looking.iter().enumerate() {
-                if l.filters[k].map_or(true, |f| rows[r][f] == 1) {
+                if l.filter_value(k, rows, r).map_or(true, |x| x == 1) {
                     let mut acc = cs.constant % rm::P;
                     for (c, a) in &cs.local {
                         acc = rm::add(acc, rm::mul(*a, rows[r][*c]));
@@ -187,6 +191,9 @@ fn exec_s<C: GenericConfig<D, F = F>, const COLS: usize, const PIS: usize>(case:
     rep.probe(&format!("c10.constraint_degree.{}", def.degree));
     if l.filters.iter().any(|f| f.is_some()) {
         rep.probe("c10.filtered_lookup");
+    }
+    if (0..l.filters.len()).any(|k| l.filter_reads_next(k)) {
+        rep.probe("c10.next_row_filter");
     }
     if l.looking.iter().any(|c| !c.next.is_empty()) {
         rep.probe("c10.next_row_column");
